@@ -178,6 +178,19 @@ TEMPLATES = {
         ("call", "Cipher::decrypt", (at("p1.cipher"), at("p1.n"), P2, P3, P4), {}),
         ("assign", "p1.n", ("+", 1, ("field", "p1.n")), {}),
     ],
+    # transport messages: ENCRYPT/DECRYPT with zero-length associated data (§5.1 EncryptWithAd(zerolen, ..) via §5.3 Split)
+    "cipherstate::CipherState::encrypt": [
+        ("call", "CipherState::encrypt_ad", (P1, EMPTY, P2, P3), {}),
+    ],
+    "cipherstate::CipherState::decrypt": [
+        ("call", "CipherState::decrypt_ad", (P1, EMPTY, P2, P3), {}),
+    ],
+    "cipherstate::StatelessCipherState::encrypt": [
+        ("call", "StatelessCipherState::encrypt_ad", (P1, P2, EMPTY, P3, P4), {}),
+    ],
+    "cipherstate::StatelessCipherState::decrypt": [
+        ("call", "StatelessCipherState::decrypt_ad", (P1, P2, EMPTY, P3, P4), {}),
+    ],
     "cipherstate::StatelessCipherState::encrypt_ad": [
         ("call", "Cipher::encrypt", (at("p1.cipher"), P2, P3, P4, P5), {}),
     ],
@@ -215,6 +228,7 @@ TEMPLATES = {
 TEMPLATE_CALLS = SEMANTIC + (
     "Hash::hkdf", "Hash::hmac", "Hash::reset", "Hash::input", "Hash::result", "Cipher::set", "Cipher::encrypt", "Cipher::decrypt", "Cipher::rekey",
     "CipherState::encrypt_ad", "CipherState::decrypt_ad", "CipherState::encrypt", "CipherState::decrypt",
+    "StatelessCipherState::encrypt_ad", "StatelessCipherState::decrypt_ad",
 )
 # writes to these fields are specification-level; other fields (e.g. the recorded key used for roll-back) are bookkeeping
 TRACKED_FIELDS = ("h", "ck", "has_key", "n", "cipher")
